@@ -142,37 +142,42 @@ func (r *WeightedRoundRobinSelection) Select(pool UpstreamPool, _ *http.Request,
 		}
 		return nil
 	}
-	var index, totalWeight int
-	var weights []int
 
-	for _, w := range r.Weights {
-		if w > 0 {
-			weights = append(weights, w)
+	// the weights of upstreams that are not in the pool take no part
+	weights, cycle := r.Weights, r.totalWeight
+	if len(weights) > len(pool) {
+		weights, cycle = weights[:len(pool)], 0
+		for _, weight := range weights {
+			cycle += weight
 		}
 	}
-	currentWeight := int(atomic.AddUint32(&r.index, 1)) % r.totalWeight
+	if cycle <= 0 {
+		// every upstream has weight 0, i.e. is disabled
+		return nil
+	}
+
+	// find the upstream whose turn it is: the owner of the
+	// current position in the cycle of configured weights
+	var owner, totalWeight int
+	currentWeight := int(atomic.AddUint32(&r.index, 1)) % cycle
 	for i, weight := range weights {
 		totalWeight += weight
 		if currentWeight < totalWeight {
-			index = i
+			owner = i
 			break
 		}
 	}
 
-	upstreams := make([]*Upstream, 0, len(weights))
-	for i, upstream := range pool {
-		if !upstream.Available() || r.Weights[i] == 0 {
-			continue
-		}
-		upstreams = append(upstreams, upstream)
-		if len(upstreams) == cap(upstreams) {
-			break
+	// starting with that upstream, use the first one that is
+	// available and has a weight of its own; as with round_robin,
+	// the turn of an upstream that can't be used goes to the next
+	for k := range weights {
+		i := (owner + k) % len(weights)
+		if weights[i] > 0 && pool[i].Available() {
+			return pool[i]
 		}
 	}
-	if len(upstreams) == 0 {
-		return nil
-	}
-	return upstreams[index%len(upstreams)]
+	return nil
 }
 
 // RandomChoiceSelection is a policy that selects
